@@ -1,6 +1,7 @@
 import Frp.Driver.Proto
 import Frp.Model.Frame
 import Frp.Props.C17
+import Frp.Model.MsgObj
 /-
   Driver engine "codec": replays the harness trace (real msg.WriteMsg / ReadMsg / ReadMsgInto and
   the first-message handling of a live frps) on the Frame model and evaluates the C17 predicate
@@ -43,6 +44,85 @@ def panicObs : C17.Obs := ⟨.panic, 0, 0⟩
 
 /-- encoding/json's verdict is read off the implementation's own outcome (relational oracle) -/
 def jsonOkOf (o : C17.Obs) : Bool := o.out != .err "json"
+
+/-! canonical tree texts of the harness (`codecCanonAny`):
+    `n | t | f | i<dec> | s<hex> | [v,…] | {<hexkey>:v,…}` -/
+
+def isHexC (c : Char) : Bool := (hexVal c).isSome
+
+def spanHex (cs : List Char) : List Char × List Char := cs.span isHexC
+
+def parseIntChars (cs : List Char) : Option (Int × List Char) :=
+  let (neg, cs) := match cs with | '-' :: r => (true, r) | _ => (false, cs)
+  let (ds, rest) := cs.span Char.isDigit
+  if ds.isEmpty then none else
+  let n : Nat := ds.foldl (fun (a : Nat) c => a * 10 + (c.toNat - 48)) 0
+  some (if neg then - (n : Int) else (n : Int), rest)
+
+mutual
+partial def parseTree (cs : List Char) : Option (MsgObj.J × List Char) :=
+  match cs with
+  | 'n' :: r => some (.null, r)
+  | 't' :: r => some (.bool true, r)
+  | 'f' :: r => some (.bool false, r)
+  | 'i' :: r => (parseIntChars r).map (fun (i, r) => (.num i, r))
+  | 's' :: r =>
+    let (h, r) := spanHex r
+    (unhexAux h).map (fun s => (.str s, r))
+  | '[' :: ']' :: r => some (.arr [], r)
+  | '[' :: r => (parseElems r []).map (fun (l, r) => (.arr l, r))
+  | '{' :: '}' :: r => some (.obj [], r)
+  | '{' :: r => (parseMembers r []).map (fun (l, r) => (.obj l, r))
+  | _ => none
+partial def parseElems (cs : List Char) (acc : List MsgObj.J) : Option (List MsgObj.J × List Char) :=
+  match parseTree cs with
+  | some (j, ',' :: r) => parseElems r (j :: acc)
+  | some (j, ']' :: r) => some ((j :: acc).reverse, r)
+  | _ => none
+partial def parseMembers (cs : List Char) (acc : List (Str × MsgObj.J)) : Option (List (Str × MsgObj.J) × List Char) :=
+  let (h, r) := spanHex cs
+  match unhexAux h, r with
+  | some k, ':' :: r =>
+    match parseTree r with
+    | some (j, ',' :: r) => parseMembers r ((k, j) :: acc)
+    | some (j, '}' :: r) => some (((k, j) :: acc).reverse, r)
+    | _ => none
+  | _, _ => none
+end
+
+def parseTreeAll (s : String) : Option MsgObj.J :=
+  match parseTree s.toList with
+  | some (j, []) => some j
+  | _ => none
+
+def intText (i : Int) : String := if i < 0 then "-" ++ toString i.natAbs else toString i.natAbs
+
+partial def renderTree : MsgObj.J → String
+  | .null => "n"
+  | .bool true => "t"
+  | .bool false => "f"
+  | .num i => "i" ++ intText i
+  | .str s => "s" ++ dropS (hx s) 1
+  | .arr l => "[" ++ ",".intercalate (l.map renderTree) ++ "]"
+  | .obj ms => "{" ++ ",".intercalate (ms.map (fun kv => dropS (hx kv.1) 1 ++ ":" ++ renderTree kv.2)) ++ "}"
+
+/-- object-level check of one round trip: `o`/`v`/`w` = the harness's O V W texts.
+    * the Go value (read through the Go-field-keyed table) must be well-typed for the regenerated
+      schema (else the table and the structs disagree);
+    * `toObj2` of it must be exactly the object encoding/json wrote;
+    * the Go value that came back must be `norm2` of the one that went in. -/
+def objCheck (sname : String) (o v w : String) : Option Bool :=
+  if o = "-" && v = "-" then none else
+  match parseTreeAll v with
+  | none => some false
+  | some vj =>
+    let m := MsgObj.fromObj2 C17.schemaGo sname vj
+    let typed := MsgObj.typed2 C17.schema sname m
+    let oOk := renderTree (MsgObj.toObj2 C17.schema sname m) == o
+    let wOk := match parseTreeAll w with
+      | none => false
+      | some wj => MsgObj.fromObj2 C17.schemaGo sname wj == MsgObj.norm2 C17.schema sname m
+    some (typed && oOk && wOk)
 
 def words (s : String) : List String := (s.splitOn " ").filter (· ≠ "")
 
@@ -89,7 +169,7 @@ def codecStep (st : Unit) (tok : List String) (impl : String) : Unit × Verdict 
       if impl = "werr" then (st, .diff "encodable" (some false)) else
       if !C17.known t then (st, verdictOf "unregistered" impl) else
       match words impl with
-      | [b, f, oc, c, r, eq] =>
+      | [b, f, oc, c, r, eq, oo, vv, ww] =>
         match b.toList, f.toList with
         | 'B' :: bh, 'F' :: fh =>
           match unhx (String.ofList bh), unhx (String.ofList fh), parseObs [oc, c, r] with
@@ -97,8 +177,16 @@ def codecStep (st : Unit) (tok : List String) (impl : String) : Unit × Verdict 
             let mframe := encode t body
             let m := C17.modelObs maxLen (jsonOkOf o) (mframe ++ trailer)
             let meq := match m.out with | .msg _ => "eq" | _ => "-"
-            let ms := s!"B{hx body} F{hx mframe} {renderObs m} {meq}"
+            -- object level (bodies within the bound): model toObj vs the real object, model norm vs
+            -- the value that came back
+            let obj := match C17.structOf t with
+              | some sname => objCheck sname (dropS oo 1) (dropS vv 1) (dropS ww 1)
+              | none => some false
+            let objOk := obj.getD true
+            let objs := if objOk then s!"{oo} {vv} {ww}" else "OBJECT-LEVEL-MISMATCH"
+            let ms := s!"B{hx body} F{hx mframe} {renderObs m} {meq} {objs}"
             let prop :=
+              objOk &&
               frame == mframe                                         -- wire format
               && C17.holdsOn maxLen (frame ++ trailer) o              -- bounded / exact frame / registered
               && (decide (body.length ≤ maxLen) → (o.out == (match C17.structOf t with
